@@ -33,6 +33,16 @@ CLAIMED = {
   note="Assumes non-zero property inputs/outputs (loader-enforced) and pairwise distinct names (the statement's premise). OUTSIDE: get_in_unit, to_reply, Substance + Substance, database exhaustiveness, multi-element formulas beyond one symbol + count.",
   technique="symbolic execution of rustc MIR + z3, symbolic digit strings",
   ref="DESIGN.md §5 C16"),
+ 'C06': dict(
+  text="Two solver-decided parts. (a) Number::prettify on the real MIR with the prefix table read from the loaded database: value an unbounded Real, display unit one of kg/kilogram/bit/gram/meter/second to the power 1,2,-1 (thorough 3): on every path (each possible prefix choice, the kg->gram, bit->byte and tonne special cases) z3 decides numeral * prefix^power * rescaling = the original quantity and that the printed unit is prefix + the same base unit. (b) eval_expr and eval_unit_name executed on the same conversion-target tree (10 shapes over Mul, Frac, Neg, Add, Sub, Pow 2, Mod with symbolic constants and unit values): the target's value equals the printed constant times the product of the named units - the invariant Context::show relies on for factor/divfactor.",
+  note="Stub: Number::pretty_unit -> arbitrary single display unit (fast_decompose regrouping and long-name mapping are outside), rendering strings opaque. OUTSIDE: fast_decompose, to_parts_digits string assembly, the `u` pattern renderer, numeral text (C05), unit lists and substance replies.",
+  technique="symbolic execution of rustc MIR + z3; database constants read at run time",
+  ref="DESIGN.md §5 C06"),
+ 'C07': dict(
+  text="Symbolic execution of the real MIR of Context::lookup, Registry::lookup, lookup_with_prefix and lookup_exact on a symbolic database: every stem of a universe of colliding names (s, m, in, ins, min, is, ks ...) may or may not be a base unit and/or a unit with an arbitrary value, three prefixes (k, ki, m) carry arbitrary values, the previous answer is present or not - all 2^14 (thorough 2^18) configurations at once; for 18 query names z3 decides that the result is the first reading in the order ans > exact base unit > exact unit > first matching prefix in list order > the same chain without a trailing s, and None only when no reading exists.",
+  note="BTreeMap/BTreeSet are the symbolic-presence association model (std contract). Bounds: the name universe listed in the evidence; prefix list order fixed. OUTSIDE: canonicalize (value preservation needs database well-formedness assumptions; not claimed), the loader's Resolver::lookup, the 500k-name exhaustive sweep over the bundled database, determinism (a pure function of &Registry).",
+  technique="symbolic execution of rustc MIR + z3 over a symbolic database (presence Booleans)",
+  ref="DESIGN.md §5 C07"),
  'C09': dict(
   text="Symbolic execution of the real MIR of `to_list` and `Numeric::div_rem`: the value (unbounded Real), the unit values of a list of 2..3 (thorough 4) entries (arbitrary positive Reals) and all unit exponent vectors are symbolic; z3 decides for every value at once that the parts sum to the value exactly, every part but the last is an integer, each remainder is smaller than the unit just used, all parts share the value's sign, and that non-conformable lists/values are refused (Generic vs Conformance). The automatic duration breakdown is the 6-entry instance with the constants read from the loaded database at run time.",
   note="Stubs (nondeterministic summaries listed in evidence): Context::lookup -> harness unit table, Number::to_parts -> raw value only, canonicalize, conformance_err, Show::show. Assumes unit values > 0. OUTSIDE: parse_unitlist (token scanner), rendering of the parts, list lengths > 4 (6 for the fixed duration list).",
@@ -61,7 +71,7 @@ NA = {
 }
 
 PENDING = {
- 'C04': 'not built yet', 'C05': 'not built yet', 'C06': 'not built yet', 'C07': 'not built yet',
+ 'C04': 'not built yet', 'C05': 'not built yet',
 
 }
 
